@@ -18,6 +18,7 @@ The offset is a run-time argument of `GetOffsetStorage`, so one compiled *shape*
 language reference / the property statements (pure integer arithmetic).
 """
 import collections
+import os
 
 from harness.lib import common, cppbuild
 
@@ -483,27 +484,34 @@ def pick_align(r, c, mode):
     return r.choice([2, 4, 8])
 
 
-def quick_configs(r, n_random=120):
-    """~one configuration per boundary (c, o, w) (type / byte order / alignment drawn
-    per seed, weighted so that every type is frequent), every direct-mode shape, the
-    special shapes, and random interior triples."""
+MUST_WIDTHS = (1, 2, 3, 4, 5, 7, 8, 9, 12, 15, 16, 17, 24, 31, 32, 33, 48, 63, 64)
+
+
+def quick_configs(r, n_random=40):
+    """Boundary offsets (o = 0 and o = c - w) for every container size and — per seed — the
+    boundary widths plus a random ~45% of the other widths (the thorough tier enumerates
+    all); one (type, byte order, alignment) per (c, w), weighted so that every type is
+    frequent; a direct-mode shape per (c, type); the special shapes; random interior triples."""
     out = []
     core = ["uint", "int", "bcd"]
     chosen = {}
     for c, o, w in boundary_triples():
         if (c, w) not in chosen:
+            keep = w in MUST_WIDTHS or w >= c - 1 or r.random() < 0.45
             ts = types_for(w)
             ty = r.choice(core) if r.random() < 0.6 else r.choice(ts)
             order = "null" if c == 8 and r.random() < 0.34 else r.choice(["le", "be"])
-            chosen[(c, w)] = (ty, order)
+            chosen[(c, w)] = (ty, order) if keep else None
+        if chosen[(c, w)] is None:
+            continue
         ty, order = chosen[(c, w)]
         out.append(Config(ty, w, c, o, order, "offset", pick_align(r, c, "offset")))
     for c in range(8, 65, 8):
-        for order in ["le", "be"] + (["null"] if c == 8 else []):
-            for ty in types_for(c):
-                if is_enum(ty) and r.random() < 0.5:
-                    continue
-                out.append(Config(ty, c, c, 0, order, "direct", pick_align(r, c, "direct")))
+        for ty in types_for(c):
+            if is_enum(ty) and r.random() < 0.6:
+                continue
+            order = "null" if c == 8 and r.random() < 0.3 else r.choice(["le", "be"])
+            out.append(Config(ty, c, c, 0, order, "direct", pick_align(r, c, "direct")))
     allt = list(triples())
     for _ in range(n_random):
         c, o, w = r.choice(allt)
@@ -680,13 +688,13 @@ def build_cases(cfgs, r, n_per):
     return shapes, argts, cases
 
 
-def execute(shapes, argts, cases, noopt=False, per_tu=90, workers=8, compiler="g++"):
+def execute(shapes, argts, cases, noopt=False, per_tu=60, workers=int(os.environ.get("VERIF_JOBS", "8")), compiler="g++"):
     """Compile the shapes (parallel, ASan+UBSan, EMBOSS_CHECK live), run every case on the
     real templates.  Returns one output line per case; a line starting with `CRASH`
     records a sanitizer report / tripped runtime check / crash on that case."""
-    # balanced translation units: one round of `workers` parallel compiles where possible
-    n_tus = max(1, -(-len(shapes) // per_tu))
-    n_tus = -(-n_tus // workers) * workers if len(shapes) >= 4 * workers else n_tus
+    # few, large translation units: the fixed cost per unit (runtime headers + sanitizer
+    # instrumentation) is about ten shapes' worth
+    n_tus = max(1, min(workers, -(-len(shapes) // per_tu)))
     size = -(-len(shapes) // n_tus)
     tus = [shapes[i:i + size] for i in range(0, len(shapes), size)]
     jobs = []
